@@ -3,7 +3,9 @@ SPECIFICATION Spec
 CONSTANTS
   Chunk = 2
   Limit = 8
-  MaxStream = 4
+  StreamLens <- SL4
+  PullSizes <- PS12
+  PullFixed = FALSE
   MaxRoutes = 2
   MaxSubRoutes = 0
   Shapes <- ShapesNoSub
